@@ -34,15 +34,16 @@ Inductive ev := Chunk (bs : list N) (dt : Z) | TimeoutEv (dt : Z) | Eof.
      late_read   read(): the request is complete when the deadline check finds the deadline passed:
                  true = return the n bytes, false = raise the timeout (everything stays buffered)
      late_ru     read_until(): same choice when the terminator is there but the deadline has passed
-     stop_at     a deadline check exactly AT the deadline (tremain = 0): true = time out,
-                 false = go on (one more zero-timeout poll)
+     stop_rd     read(): a deadline check exactly AT the deadline (tremain = 0): true = time out,
+                 false = go on (one more poll)
+     stop_ru     read_until(): the same choice
      disc_once   socket discard_read(): true = one recv, false = recv until nothing is waiting
      ru_chk_first read_until() on a closed transport with the terminator already buffered:
                  true = refuse, false = serve from the buffer (the device is not touched either way) *)
-Record pol := mkpol { late_read : bool; late_ru : bool; stop_at : bool; disc_once : bool;
-                      ru_chk_first : bool }.
-Definition sock_pol := mkpol false true false false false.   (* QMI_SocketTransport as pinned *)
-Definition ser_pol := mkpol true true true false true.        (* QMI_SerialTransport as pinned *)
+Record pol := mkpol { late_read : bool; late_ru : bool; stop_rd : bool; stop_ru : bool;
+                      disc_once : bool; ru_chk_first : bool }.
+Definition sock_pol := mkpol false true false false false false.  (* QMI_SocketTransport as pinned *)
+Definition ser_pol := mkpol true true true true false true.        (* QMI_SerialTransport as pinned *)
 
 (* [minp]/[maxp] = MIN_PACKET_SIZE / MAX_PACKET_SIZE of the class: tuning constants, read from the
    live class on every run; all theorems are for every value. *)
@@ -59,7 +60,7 @@ Definition ser_cfg := mkscfg 40 ser_pol.
 (* calls made on the socket / serial.Serial stand-in *)
 Inductive dcall :=
 | DOpen | DClose
-| DSetTmo (t : option Z) | DRecvFrom (n : N) | DRecv (n : N)       (* socket *)
+| DSetTmo (t : option Z) | DRecvFrom (n : N)      (* socket: settimeout; recv / recvfrom *)
 | DInWaiting | DRead (n : N) | DReset                              (* serial.Serial *)
 | DSend (d : list N).          (* socket.sendall / socket.sendto(d, address) / Serial.write *)
 
@@ -145,10 +146,10 @@ Definition dev_recv (c : cfg) (size : N) (tmo : option Z) (s : st) : st * dres :
 (* the deadline arithmetic shared by all read loops:
      if timeout is not None: tremain = tstart + timeout - time.monotonic(); if tremain < 0: ...
    (pinned sockets: < 0; pinned serial: <= 0) *)
-Definition passed (p : pol) (tr : Z) : bool := if stop_at p then (tr <=? 0)%Z else (tr <? 0)%Z.
+Definition passed (stop : bool) (tr : Z) : bool := if stop then (tr <=? 0)%Z else (tr <? 0)%Z.
 
 Inductive dl := DlNone | DlPassed | DlLeft (tr : Z).
-Definition deadline (p : pol) (tmo : option Z) (tstart now : Z) : dl :=
+Definition deadline (p : bool) (tmo : option Z) (tstart now : Z) : dl :=
   match tmo with
   | None => DlNone
   | Some t => let tr := (tstart + t - now)%Z in if passed p tr then DlPassed else DlLeft tr
@@ -172,7 +173,7 @@ Fixpoint read_loop (c : cfg) (fuel : nat) (n : N) (tmo : option Z) (tstart : Z)
       | DvData [] => (s1, REof)
       | DvData b =>
           let s2 := set_buf s1 (buf s1 ++ b) in
-          match deadline (cpol c) tmo tstart (clk s2) with
+          match deadline (stop_rd (cpol c)) tmo tstart (clk s2) with
           | DlPassed =>
               if late_read (cpol c) && (n <=? len (buf s2))%N
               then (set_buf s2 (drop n (buf s2)), RBytes (take n (buf s2)))
@@ -209,7 +210,7 @@ Fixpoint ru_loop (c : cfg) (fuel : nat) (term : list N) (tmo : option Z) (tstart
       | DvData [] => (s1, REof)
       | DvData b =>
           let s2 := set_buf s1 (buf s1 ++ b) in
-          match cut_term term s2, deadline (cpol c) tmo tstart (clk s2) with
+          match cut_term term s2, deadline (stop_ru (cpol c)) tmo tstart (clk s2) with
           | Some x, DlPassed => if late_ru (cpol c) then x else (s2, RTimeout)
           | Some x, _ => x
           | None, DlPassed => (s2, RTimeout)
@@ -246,7 +247,7 @@ Fixpoint discard_loop (c : cfg) (fuel : nat) (s : st) (acc : list N) : st * res 
   match fuel with
   | O => (s, RFuel, acc)
   | S f =>
-    let '(s1, d) := dev_recv c (maxp c) (Some 0%Z) (logc s (DRecv (maxp c))) in
+    let '(s1, d) := dev_recv c (maxp c) (Some 0%Z) (logc s (DRecvFrom (maxp c))) in
     match d with
     | DvData [] => (s1, RNone, acc)
     | DvData b => if disc_once (cpol c) then (s1, RNone, acc ++ b) else discard_loop c f s1 (acc ++ b)
@@ -269,9 +270,11 @@ Definition do_close (s : st) : st * res :=
   if is_open s then (logc (set_open s false) DClose, RNone) else (s, RInvalid).
 
 (* QMI_TcpTransport.write / QMI_UdpTransport.write: _check_is_open; settimeout(None); send.
-   Writing neither consumes device events nor touches the read buffer. *)
+   Writing neither consumes device events nor touches the read buffer.  Observed of a write: the
+   bytes that go out, in order (how the socket is put into blocking mode, and whether the data goes
+   out in one or several send calls, is not observed). *)
 Definition sock_write (d : list N) (s : st) : st * res :=
-  if is_open s then (logc (logc s (DSetTmo None)) (DSend d), RNone) else (s, RInvalid).
+  if is_open s then (logc s (DSend d), RNone) else (s, RInvalid).
 
 (* ------------------------------------------------------------------------------------------ *)
 (* Serial device (serial.Serial stand-in)                                                      *)
@@ -305,7 +308,7 @@ Fixpoint ser_read_loop (sc : scfg) (fuel : nat) (n : N) (tmo : option Z) (tstart
   | S f =>
     let '(s1, b, silent) := ser_read (tick sc) (n - len (buf s)) s in
     let s2 := set_buf s1 (buf s1 ++ b) in
-    let d := deadline (spol sc) tmo tstart (clk s2) in
+    let d := deadline (stop_rd (spol sc)) tmo tstart (clk s2) in
     if (n <=? len (buf s2))%N then
       match d with
       | DlPassed => if late_read (spol sc) then (set_buf s2 [], RBytes (buf s2)) else (s2, RTimeout)
@@ -337,7 +340,7 @@ Definition ser_read_op (sc : scfg) (n : N) (tmo : option Z) (s : st) : st * res 
     else (s1, RTimeout)
   else ser_read_loop sc (ser_fuel tmo s) n tmo (clk s) s.
 
-Definition tr_passed (p : pol) (tr : option Z) : bool :=
+Definition tr_passed (p : bool) (tr : option Z) : bool :=
   match tr with Some x => passed p x | None => false end.
 
 (* QMI_SerialTransport.read_until, the one-byte loop:
@@ -347,12 +350,12 @@ Fixpoint ser_ru_loop (sc : scfg) (fuel : nat) (term : list N) (tmo : option Z) (
   match fuel with
   | O => (s, RFuel)
   | S f =>
-    if tr_passed (spol sc) tremain then (s, RTimeout)
+    if tr_passed (stop_ru (spol sc)) tremain then (s, RTimeout)
     else
       let '(s1, b, silent) := ser_read (tick sc) 1 s in
       let s2 := set_buf s1 (buf s1 ++ b) in
       if endswith (buf s2) term then
-        match deadline (spol sc) tmo tstart (clk s2) with
+        match deadline (stop_ru (spol sc)) tmo tstart (clk s2) with
         | DlPassed => if late_ru (spol sc) then (set_buf s2 [], RBytes (buf s2)) else (s2, RTimeout)
         | _ => (set_buf s2 [], RBytes (buf s2))
         end
@@ -484,8 +487,8 @@ Definition ev_dt_ok (e : ev) : Prop :=
 
 Definition bools := [false; true].
 Definition all_pols : list pol :=
-  flat_map (fun a => flat_map (fun b => flat_map (fun c => flat_map (fun d =>
-    map (fun e => mkpol a b c d e) bools) bools) bools) bools) bools.
+  flat_map (fun a => flat_map (fun b => flat_map (fun c => flat_map (fun d => flat_map (fun e =>
+    map (fun f => mkpol a b c d e f) bools) bools) bools) bools) bools) bools.
 
 Definition with_pol (k : kind) (p : pol) : kind :=
   match k with
